@@ -47,6 +47,8 @@ pub struct MuxCase {
     pub inline_first: bool,
     /// where the generator produced this case (shard, index) — replay locator
     pub locator: (usize, usize),
+    /// open all streams from concurrent tasks (overlapping open_stream calls) instead of one after the other
+    pub concurrent_opens: bool,
 }
 
 impl MuxCase {
@@ -59,7 +61,7 @@ impl MuxCase {
             "c2s": self.c2s.to_json(), "s2c": self.s2c.to_json(),
             "c2s_desc": self.c2s.describe(), "s2c_desc": self.s2c.describe(),
             "scheme": self.scheme, "sched_p": self.sched_p, "inline_first": self.inline_first,
-            "locator": {"shard": self.locator.0 as u64, "index": self.locator.1 as u64},
+            "locator": {"shard": self.locator.0 as u64, "index": self.locator.1 as u64}, "concurrent_opens": self.concurrent_opens,
         })
     }
     pub fn from_json(v: &Value) -> Option<MuxCase> {
@@ -84,6 +86,7 @@ impl MuxCase {
             sched_p: v.get("sched_p").and_then(|x| x.as_f64()).unwrap_or(0.0),
             inline_first: v.get("inline_first").and_then(|x| x.as_bool()).unwrap_or(false),
             locator: (0, 0),
+            concurrent_opens: v.get("concurrent_opens").and_then(|x| x.as_bool()).unwrap_or(false),
         })
     }
     pub fn shape_key(&self) -> String {
@@ -216,7 +219,7 @@ pub fn gen_case(rng: &mut Rng, max_streams: usize, budget_bytes: usize) -> MuxCa
     } else {
         None
     };
-    MuxCase { seed: rng.next(), streams, c2s, s2c, scheme, sched_p: if rng.chance(0.5) { 0.3 } else { 0.0 }, inline_first: rng.chance(0.3), locator: (0, 0) }
+    MuxCase { seed: rng.next(), streams, c2s, s2c, scheme, sched_p: if rng.chance(0.5) { 0.3 } else { 0.0 }, inline_first: rng.chance(0.3), locator: (0, 0), concurrent_opens: rng.chance(0.25) }
 }
 
 /// Build an owned `Stream` (so that its AsyncRead/AsyncWrite impls are reachable)
@@ -412,7 +415,39 @@ async fn run_case_async(case: &MuxCase) -> MuxResult {
     // open streams (first data frame = first up chunk when there is one)
     let mut client_streams: Vec<Arc<Stream>> = Vec::new();
     let mut first_sent = vec![false; n];
+    let open_concurrently = async {
+        // overlapping opens: every task opens its stream and writes the first chunk, like concurrent requests do
+        let mut hs = Vec::new();
+        for (i, (up, _)) in case.streams.iter().enumerate() {
+            let client = pair.client.clone();
+            let first = up.chunks.first().copied();
+            hs.push(tokio::spawn(async move {
+                let (st, _rx) = client.open_stream().await.map_err(|e| format!("open_stream #{i}: {e}"))?;
+                client.disable_buffering();
+                let mut sent = false;
+                if let Some(c) = first {
+                    let data = Pattern::new(seed, st.id() as u64, UP).make(0, c);
+                    client.write_data_frame(st.id(), Bytes::from(data)).await.map_err(|e| format!("first write on stream {}: {e}", st.id()))?;
+                    sent = true;
+                }
+                Ok::<_, String>((st, sent))
+            }));
+        }
+        let mut out = Vec::new();
+        for h in hs {
+            out.push(h.await.map_err(|e| e.to_string())??);
+        }
+        let mut ids: Vec<u32> = out.iter().map(|(s, _): &(Arc<Stream>, bool)| s.id()).collect();
+        ids.sort();
+        if ids.windows(2).any(|w| w[0] == w[1]) {
+            return Err(format!("DUPLICATE-ID two concurrently opened live streams were given the same stream id: {:?}", ids));
+        }
+        Ok(out)
+    };
     let open_all = async {
+        if case.concurrent_opens {
+            return open_concurrently.await;
+        }
         let mut out = Vec::new();
         for (i, (up, _)) in case.streams.iter().enumerate() {
             let (st, _rx) = match pair.client.open_stream().await {
@@ -443,7 +478,8 @@ async fn run_case_async(case: &MuxCase) -> MuxResult {
             }
         }
         Ok(Err(e)) => {
-            problems.push(("general".into(), "open_failed".into(), e));
+            let sym = if e.starts_with("DUPLICATE-ID") { "same_id_for_two_live_streams" } else { "open_failed" };
+            problems.push(("general".into(), sym.into(), e));
             return MuxResult { problems, bytes_checked: 0, frames_c2s: 0, sched_hits: 0, interleaving: 0, finished: false };
         }
         Err(_) => {
